@@ -20,14 +20,19 @@ class C13(framework.PropertyCheck):
         for _ in range(n):
             N = rng.randint(2, 8)
             g = gen_expr.ExprGen(rng, None, virtual=False, funcs=False, n_max=N)
-            kind = rng.choice(['top', 'top', 'scope', 'group', 'groups', 'topref'])
+            kind = rng.choice(['top', 'top', 'scope', 'group', 'groups', 'topref', 'dep'])
             if kind == 'topref':
                 # ~ and # references in a definition made at top level are fixed there too (nothing is captured: the names stand for themselves)
                 body = rng.choice(['(+ ~top.cnt 1)', '(+ ~top.cnt ~top.d_valid@1)', '(&& #top.d_valid #top.d_ready)', '(- ~top.cnt (reval #top.e_valid -1))'])
                 define = f'(defsig tv {body})'
                 name = 'tv'
                 body = body.replace('~', '').replace('#', '')
-            if kind == 'topref':
+            if kind == 'dep':
+                # no offset of its own: everything it knows about the neighbouring sample comes through another virtual signal
+                body = rng.choice(['(+ (if u1 u1 -3) top.clk)', '(list u1 top.cnt)', '(if u1 (- u1 top.cnt) 99)'])
+                define = f'(defsig dv {body})'
+                name = 'dv'
+            elif kind == 'topref':
                 pass
             elif kind == 'top':
                 body = g.expr(rng.randint(1, 3))
@@ -73,6 +78,9 @@ class C13(framework.PropertyCheck):
                     visits.append(['sample', L])
                 else:
                     visits.append(['again'])
+            if kind == 'dep':
+                keep = sorted(rng.sample(range(N), max(1, N // 2)))
+                visits = [['at', i] for i in range(N)] + [['sample', keep]] + [['at', j] for j in range(len(keep))] + [['find', 0]] + visits[:3]
             case = {'N': N, 'seed': rng.randrange(1 << 30), 'define': define, 'name': name, 'body': body, 'visits': visits}
             if rng.random() < 0.4:
                 case['probe_before'] = True          # the name is asked for before it exists
@@ -108,15 +116,18 @@ class C13(framework.PropertyCheck):
                 if vis[1] >= n_cur:
                     continue
                 steps.append(('eval', 'eorg', f'(step (- {vis[1]} INDEX))'))
+                steps.append(('eval', 'eorg', f'(list {b})'))
                 marks.append(('pair', len(steps)))
                 steps.append(('eval', 'eorg', f'(list {v} {b})'))
             elif k == 'scoped':
                 if vis[1] >= n_cur:
                     continue
                 steps.append(('eval', 'eorg', f'(step (- {vis[1]} INDEX))'))
+                steps.append(('eval', 'eorg', f'(list {b})'))
                 marks.append(('pair', len(steps)))
                 steps.append(('eval', 'eorg', f'(list (in-scope "top" {v}) {b} (in-group "top.e_" {v}))'))
             elif k == 'again':
+                steps.append(('eval', 'eorg', f'(list {b})'))
                 marks.append(('pair', len(steps)))
                 steps.append(('eval', 'eorg', f'(list {v} {b} {v})'))
             elif k == 'rel':
@@ -148,14 +159,21 @@ class C13(framework.PropertyCheck):
 
     def oracle(self, case, iobs):
         steps, marks = self._plan(case)
+        # bodies that establish a scope or group of their own are outside the quantifier (see assumptions): nothing is claimed when they raise
+        own_ctx = 'in-scope' in case['body'] or 'in-group' in case['body']
         for kind, si in marks:
             if si >= len(iobs) or (kind == 'out' and si + 1 >= len(iobs)):
+                if kind == 'pair' and si == len(iobs) and si >= 1 and iobs[si - 1][0] == 'ok' and not own_ctx:
+                    return {'what': 'reading the virtual signal raises where its body evaluates', 'define': case['define'], 'query': steps[si][2]}
                 if iobs and iobs[-1][0] in ('err', 'timeout'):
                     # the body raised somewhere (x-valued operand): v must raise there as well; nothing further is claimed
                     return None
                 return {'what': 'missing observations'}
             o = iobs[si]
             if o[0] != 'ok':
+                if kind == 'pair' and si >= 1 and iobs[si - 1][0] == 'ok' and not own_ctx:
+                    # the body alone has just been evaluated at this very position
+                    return {'what': 'reading the virtual signal raises where its body evaluates', 'define': case['define'], 'query': steps[si][2], 'got': o}
                 return None
             if kind == 'unlisted':
                 if o[1][2] != (('B', False), ('B', False)):
